@@ -29,7 +29,10 @@ def gen_prices(rng, n, style):
     """per symbol list of (bid, ask) or None (gap), length n"""
     out = {}
     for s in SYMS:
-        p = rng.choice([10.0, 10.5, 25.0, 100.0, 101.25])
+        # mostly ordinary prices; sometimes a security that trades below one currency unit (a one-unit gap is then
+        # several shares, and "less than one share" is less than one unit)
+        p = rng.choice([10.0, 10.5, 25.0, 100.0, 101.25, 10.0, 25.0, 0.5, 0.25])
+        penny = p < 1.0
         seq = []
         for i in range(n):
             if i > 0:
@@ -37,12 +40,14 @@ def gen_prices(rng, n, style):
                     pass
                 elif style == "jumpy" and rng.random() < 0.3:
                     p = p * rng.choice([2.0, 0.5, 3.0, 0.25])
+                elif penny:
+                    p = max(0.125, p + rng.choice([-0.125, 0.0, 0.125, 0.0625]))
                 else:
                     p = max(0.5, p + rng.choice([-1.0, -0.5, 0.0, 0.5, 1.0, 0.25]))
             if i > 0 and rng.random() < (0.0 if style == "const" and s == "ABC" else 0.2):
                 seq.append(None)
             else:
-                spread = 0.0 if style == "const" else rng.choice([0.0, 0.5, 1.0])
+                spread = 0.0 if style == "const" else rng.choice([0.0, 0.5, 1.0]) * (0.125 if penny else 1.0)
                 seq.append((p, p + spread))
         out[s] = seq
     return out
